@@ -17,6 +17,72 @@ def readRowsC03 : Nat → List Nat → Option Rows
 /-- what `np.empty` leaves behind: a value no atom index can take. -/
 def junkC03 (r k : Nat) : Nat := 900000 + 1000 * r + k
 
+/-- the whole pipeline on one state, as the implementation runs it: bin table with the growth block of the source,
+    per-atom rows with `initialsize`/`deltasize`; cross-checked against the list versions.
+    Reply: `cap near_cutoff near_edge compared entries maxbin maxatomsperbin rows…`. -/
+def runNlistC03 (S : Sys) (cutoff : Rat) (init delta : Nat) (tol : Rat) : Except String String :=
+  let n := S.natoms
+  if cutoff ≤ 0 ∨ init < 1 ∨ delta < 1 then .error "value" else
+  let G := mkGrid S cutoff
+  let es := entries S G
+  if !validEntries es then .error "value" else
+  let bt := fillBins srcBinParams es
+  let cs := (occupied es).flatMap (binPairsA G bt)
+  let c2 := cutoff * cutoff
+  let tbl := distTable S
+  let acc := tableAccept tbl c2
+  let rowsL := runLW acc n cs
+  let st := runAW junkC03 init delta acc n cs
+  if absRows st.rows ≠ rowsL then .error "assert" else
+  if st.rows.any (fun r => r.length ≠ st.maxn + 1) then .error "assert" else
+  let coordOk := st.rows.all fun r => coordOf r == (absRow r).length
+  if !coordOk then .error "assert" else
+  let maxbin := ((occupied es).map fun b => (bt.get b).getD 0 0).foldl max 0
+  .ok (s!"{st.maxn} {showBool (nearCutoff tbl cutoff tol)} {showBool (nearEdge S G tol)} {cs.length} {es.length} "
+    ++ s!"{maxbin} {bt.maxapb} " ++ showRowsC03 (absRows st.rows))
+
+def readPosC03 (n : Nat) (xs : List Rat) : List (V3 Rat) :=
+  (List.range n).map fun k => (⟨xs.getD (3 * k) 0, xs.getD (3 * k + 1) 0, xs.getD (3 * k + 2) 0⟩ : V3 Rat)
+
+/-- operations of a `seq` request: `P i x y z` | `A n x…` | `B v11 … v33 ox oy oz` | `C px py pz` |
+    `Q cutoff init delta`; the reply lists one `| …` section per `Q`, answered from the state at that point
+    (`applyOp`). -/
+partial def runSeqC03 (S : Sys) (tol : Rat) (toks : List String) (acc : List String) : Except String (List String) :=
+  match toks with
+  | [] => .ok acc.reverse
+  | "P" :: i :: x :: y :: z :: rest =>
+    match i.toNat?, parseRats? [x, y, z] with
+    | some i, some [x, y, z] =>
+      if i < S.natoms then runSeqC03 (applyOp S (.setPos i ⟨x, y, z⟩)) tol rest acc else .error "value"
+    | _, _ => .error "format"
+  | "A" :: n :: rest =>
+    match n.toNat? with
+    | some n =>
+      match parseRats? (rest.take (3 * n)) with
+      | some xs =>
+        if xs.length ≠ 3 * n then .error "format" else
+        runSeqC03 (applyOp S (.setAll (readPosC03 n xs))) tol (rest.drop (3 * n)) acc
+      | none => .error "format"
+    | none => .error "format"
+  | "B" :: rest =>
+    match parseRats? (rest.take 12) with
+    | some [a, b, c, d, e, f, g, h, i, ox, oy, oz] =>
+      runSeqC03 (applyOp S (.setBox ⟨⟨a, b, c⟩, ⟨d, e, f⟩, ⟨g, h, i⟩⟩ ⟨ox, oy, oz⟩)) tol (rest.drop 12) acc
+    | _ => .error "format"
+  | "C" :: px :: py :: pz :: rest =>
+    match parseBool? px, parseBool? py, parseBool? pz with
+    | some px, some py, some pz => runSeqC03 (applyOp S (.setPbc px py pz)) tol rest acc
+    | _, _, _ => .error "format"
+  | "Q" :: cutoff :: init :: delta :: rest =>
+    match parseRat? cutoff, init.toNat?, delta.toNat? with
+    | some cutoff, some init, some delta =>
+      let S' := applyOp S (.query cutoff)
+      match runNlistC03 S' cutoff init delta tol with
+      | .ok r => runSeqC03 S' tol rest (s!"| {S'.natoms} {r}" :: acc)
+      | .error e => runSeqC03 S' tol rest (s!"| err:{e}" :: acc)
+    | _, _, _ => .error "format"
+  | _ => .error "format"
+
 def handleC03 (toks : List String) : String :=
   match toks with
   | "nlist" :: px :: py :: pz :: cutoff :: init :: delta :: tol :: rest =>
@@ -26,26 +92,28 @@ def handleC03 (toks : List String) : String :=
       match parseRats? (rest.take 12), (rest.drop 12).head?.bind String.toNat?, parseRats? (rest.drop 13) with
       | some [a, b, c, d, e, f, g, h, i, ox, oy, oz], some n, some xs =>
         if xs.length ≠ 3 * n then err "format" else
-        if cutoff ≤ 0 ∨ init < 1 ∨ delta < 1 then err "value" else
-        let pos := (List.range n).map fun k => (⟨xs.getD (3 * k) 0, xs.getD (3 * k + 1) 0, xs.getD (3 * k + 2) 0⟩ : V3 Rat)
-        let S : Sys := ⟨⟨⟨a, b, c⟩, ⟨d, e, f⟩, ⟨g, h, i⟩⟩, ⟨ox, oy, oz⟩, px, py, pz, pos⟩
-        let G := mkGrid S cutoff
-        let es := entries S G
-        if !validEntries es then err "value" else
-        let cs := candsOf G es
-        let c2 := cutoff * cutoff
-        let tbl := distTable S
-        let acc := tableAccept tbl c2
-        let rowsL := runLW acc n cs
-        let st := runAW junkC03 init delta acc n cs
-        if absRows st.rows ≠ rowsL then err "assert" else
-        if st.rows.any (fun r => r.length ≠ st.maxn + 1) then err "assert" else
-        let coordOk := st.rows.all fun r => coordOf r == (absRow r).length
-        if !coordOk then err "assert" else
-        s!"ok {st.maxn} {showBool (nearCutoff tbl cutoff tol)} {showBool (nearEdge S G tol)} {cs.length} {es.length} "
-          ++ showRowsC03 (absRows st.rows)
+        let S : Sys := ⟨⟨⟨a, b, c⟩, ⟨d, e, f⟩, ⟨g, h, i⟩⟩, ⟨ox, oy, oz⟩, px, py, pz, readPosC03 n xs⟩
+        match runNlistC03 S cutoff init delta tol with
+        | .ok r => "ok " ++ r
+        | .error e => err e
       | _, _, _ => err "format"
     | _, _, _, _, _, _, _ => err "format"
+  | "seq" :: px :: py :: pz :: tol :: rest =>
+    -- `seq px py pz tol <9 vects> <3 origin> n <3n pos> ops…`
+    match parseBool? px, parseBool? py, parseBool? pz, parseRat? tol with
+    | some px, some py, some pz, some tol =>
+      match parseRats? (rest.take 12), (rest.drop 12).head?.bind String.toNat? with
+      | some [a, b, c, d, e, f, g, h, i, ox, oy, oz], some n =>
+        match parseRats? ((rest.drop 13).take (3 * n)) with
+        | some xs =>
+          if xs.length ≠ 3 * n then err "format" else
+          let S : Sys := ⟨⟨⟨a, b, c⟩, ⟨d, e, f⟩, ⟨g, h, i⟩⟩, ⟨ox, oy, oz⟩, px, py, pz, readPosC03 n xs⟩
+          match runSeqC03 S tol ((rest.drop 13).drop (3 * n)) [] with
+          | .ok parts => "ok " ++ " ".intercalate parts
+          | .error e => err e
+        | none => err "format"
+      | _, _ => err "format"
+    | _, _, _, _ => err "format"
   | "spec" :: px :: py :: pz :: cutoff :: rest =>
     -- the specification itself (used to cross-check the Python oracle)
     match parseBool? px, parseBool? py, parseBool? pz, parseRat? cutoff with
@@ -53,8 +121,7 @@ def handleC03 (toks : List String) : String :=
       match parseRats? (rest.take 12), (rest.drop 12).head?.bind String.toNat?, parseRats? (rest.drop 13) with
       | some [a, b, c, d, e, f, g, h, i, ox, oy, oz], some n, some xs =>
         if xs.length ≠ 3 * n then err "format" else
-        let pos := (List.range n).map fun k => (⟨xs.getD (3 * k) 0, xs.getD (3 * k + 1) 0, xs.getD (3 * k + 2) 0⟩ : V3 Rat)
-        let S : Sys := ⟨⟨⟨a, b, c⟩, ⟨d, e, f⟩, ⟨g, h, i⟩⟩, ⟨ox, oy, oz⟩, px, py, pz, pos⟩
+        let S : Sys := ⟨⟨⟨a, b, c⟩, ⟨d, e, f⟩, ⟨g, h, i⟩⟩, ⟨ox, oy, oz⟩, px, py, pz, readPosC03 n xs⟩
         "ok " ++ showRowsC03 ((List.range n).map (nlistSpec S cutoff))
       | _, _, _ => err "format"
     | _, _, _, _ => err "format"
